@@ -4,6 +4,7 @@ import (
 	"database/sql"
 	"encoding/json"
 	"fmt"
+	"math"
 
 	dblib "github.com/SAP/go-dblib"
 	"github.com/SAP/go-dblib/zz_verif/simrt"
@@ -46,7 +47,7 @@ func (c20) NRuns(tier string) int {
 	return 720
 }
 func (c20) Rule() string {
-	return "one run = one fresh worker process and one iteration order of the 7-key level map (orders enumerated as Fisher-Yates choice sequences, without replacement; thorough = all 5040, four runs each = exhaustive over orders); each run evaluates sql levels -8..64 forward and ASE levels -3..8 backward, every call twice at seeded shuffled positions, (1) under the canonical map order, (2) under the run's order, (3) from 2..4 concurrent tasks under a seeded schedule and the race detector (in every second run this comes first, so that whatever the process builds lazily is built under contention); all answers for one input must agree and match the statement's table; non-trivial = order differs from canonical; distinct = distinct (order, call seed)"
+	return "one run = one fresh worker process and one iteration order of the 7-key level map (orders enumerated as Fisher-Yates choice sequences, without replacement; thorough = all 5040, four runs each = exhaustive over orders); each run evaluates sql levels -8..64 (and values around +-2^8, 2^16, 2^31, 2^32 and the extremes) forward and ASE levels -3..8 (and the same outliers) backward, every call twice at seeded shuffled positions, (1) under the canonical map order, (2) under the run's order, (3) from 2..4 concurrent tasks under a seeded schedule and the race detector (in every second run this comes first, so that whatever the process builds lazily is built under contention); all answers for one input must agree and match the statement's table; non-trivial = order differs from canonical; distinct = distinct (order, call seed)"
 }
 func (c20) Components() map[string]string {
 	return map[string]string{"isolationlevels.go": "real (rewritten)", "map iteration order": "stub: simrt.MapKeys seeded permutation", "goroutine scheduling": "simulated (simrt baton scheduler) in the concurrent execution", "process": "real: one OS process per run"}
@@ -100,6 +101,15 @@ func (c20) Run(plan interface{}, schedSeed uint64, replay []simrt.Choice, lenien
 		}
 		for l := -3; l <= 8; l++ {
 			calls = append(calls, call{'t', l}, call{'s', l})
+		}
+		// values that a table indexed by a narrower integer type would fold onto valid levels
+		for _, base := range []int{1 << 8, 1 << 16, 1 << 31, 1 << 32, -(1 << 8), -(1 << 16), -(1 << 31), -(1 << 32)} {
+			for k := 0; k <= 7; k++ {
+				calls = append(calls, call{'f', base + k}, call{'t', base + k}, call{'s', base + k})
+			}
+		}
+		for _, x := range []int{math.MaxInt64, math.MinInt64, math.MaxInt32, math.MinInt32} {
+			calls = append(calls, call{'f', x}, call{'t', x}, call{'s', x})
 		}
 	}
 	cr := NewRand(p.CallSeed)
